@@ -8,7 +8,8 @@ Import ListNotations.
 Local Open Scope nat_scope.
 
 (* tie: the skeleton the model encodes is the one in the source today.
-   recv: ReadString -> ParseLine -> conn.in <- line, the only sender on conn.in; one recv and one
+   recv: ReadString -> ParseLine -> conn.in <- line, the only sender on conn.in, EVERY parsed line
+   goes through that one send (recv starts no goroutine and never calls conn.dispatch); one recv and one
    runLoop goroutine per connection; runLoop: select { <-conn.in -> conn.dispatch | <-ctx.Done() ->
    wg.Done; closeIf; return }; Conn.dispatch = internal (sync); `go` background; foreground (sync);
    hSet.dispatch = one `go func` per handler + wg.Wait(); h_001 starts with `defer conn.dispatch`
@@ -42,6 +43,9 @@ Lemma tie_C03 :
                       || String.eqb (snd p) "conn.runLoop" || String.eqb (snd p) "conn.recv") go_stmts_client
      = [("Conn.dispatch", "conn.bgHandlers.dispatch"); ("Conn.postConnect", "conn.recv");
         ("Conn.postConnect", "conn.runLoop"); ("hSet.dispatch", "func")]%string
+  /\ filter (fun p => String.eqb (fst p) "Conn.recv") go_stmts_client = []
+  /\ List.length (filter (String.eqb "send conn.in") flow_client_Conn_recv) = 1
+  /\ existsb (fun x => String.eqb x "conn.dispatch" || String.eqb x "go conn.dispatch") flow_client_Conn_recv = false
   /\ lits_client_Conn_initialise = [Consts.LInt 32%Z; Consts.LInt 32%Z]
   /\ cap_in = 32.
 Proof. repeat split; vm_compute; reflexivity. Qed.
